@@ -2,6 +2,7 @@ package main
 
 import (
 	"fmt"
+	"regexp"
 
 	"golang.org/x/tools/go/ssa"
 )
@@ -274,4 +275,153 @@ func init() {
 	// an out-of-range read in the IterateBytes producer kills the process from a library goroutine (C16)
 	register("C10", rulePDF417Encoder)
 	register("C16", ruleBitList)
+}
+
+// P11: PDF417 text compaction - the pad value and the tracked sub-mode.
+func rulePDF417Pad(c *Ctx) {
+	const R = "P11-PDF-PAD"
+	c.Doc(R, "pdf417.encodeText: an odd number of sub-mode values is completed with the value 29; 29 is the latch to alpha in the punctuation sub-mode (ISO 15438 Table 5: ps in alpha/lower/mixed, al in punctuation), so the sub-mode returned to the caller - which continues from it after a single-byte shift 913 - is alpha exactly when the pad was added in punctuation sub-mode, and the tracked sub-mode in every other case")
+	c.Floor(R, 3)
+	fn := c.theFunc(R, "pdf417.encodeText")
+	if fn == nil || len(fn.Params) != 2 {
+		return
+	}
+	punct, ok1 := c.P.ConstInt("pdf417", "subPunct")
+	upper, ok2 := c.P.ConstInt("pdf417", "subUpper")
+	if !ok1 || !ok2 {
+		c.Anchor(R, "pdf417.subPunct", "sub-mode constants not found")
+		return
+	}
+	n := NewNormer(c.P)
+	n.BindParams(fn, "text", "submode")
+	// the tracked sub-mode at the end of the scan: the loop-carried phi fed by the parameter
+	var sm *ssa.Phi
+	eachInstr(fn, func(b *ssa.BasicBlock, ins ssa.Instruction) {
+		if p, ok := ins.(*ssa.Phi); ok && sm == nil {
+			for ei, e := range p.Edges {
+				if e == ssa.Value(fn.Params[1]) && !b.Dominates(b.Preds[ei]) {
+					sm = p
+				}
+			}
+		}
+	})
+	if sm == nil {
+		c.Undecided(R, "pdf417.encodeText/submode", fn.Pos(), "tracked sub-mode (loop state fed by the parameter) not found")
+		return
+	}
+	n.Bind[sm] = "sm"
+	// the pad: an appended value 30*h + 29
+	var pad *ssa.Call
+	for _, s := range appendSites(fn) {
+		if len(s.elems) != 1 {
+			continue
+		}
+		v := n.Norm(s.elems[0])
+		if k := v[""]; k == 29 && len(v) == 2 {
+			for m, cf := range v {
+				if m != "" && cf == 30 {
+					pad = s.call
+				}
+			}
+		}
+	}
+	if pad == nil {
+		c.Check(R, "pdf417.encodeText/pad", fn.Pos(), false, "an odd value count is completed with 30*h + 29", "no such append")
+		return
+	}
+	D := pad.Block().Idom()
+	padCond := n.ReachCond(fn, D, pad.Block())
+	odd := regexpOddLen.MatchString(padCond.String())
+	c.Check(R, "pdf417.encodeText/pad-iff-odd", pad.Pos(), odd, "pad added exactly when the number of values is odd", padCond.String())
+	rets := returnsOf(fn)
+	if len(rets) != 1 {
+		c.Undecided(R, "pdf417.encodeText/return", fn.Pos(), fmt.Sprintf("%d returns", len(rets)))
+		return
+	}
+	clearOpaque(padCond) // the parity test is an ordinary atom of this comparison, on both sides
+	isPunct := MustRefCond(fmt.Sprintf("sm == %d", punct))
+	wantAlpha := cAnd(padCond, isPunct)
+	cases := n.valueCases(fn, D, rets[0].Results[0], 0)
+	sawAlpha, sawSame := false, false
+	for _, cs := range cases {
+		clearOpaque(cs.cond)
+		k, isK := cs.val.IsConst()
+		switch {
+		case isK && k == upper:
+			sawAlpha = true
+			eq, w := CondEquivalent(cs.cond, wantAlpha)
+			c.Check(R, "pdf417.encodeText/returns-alpha-iff", rets[0].Pos(), eq, "alpha exactly when padded in punctuation sub-mode: "+wantAlpha.String(), cs.cond.String()+" "+w)
+		case cs.val.String() == "sm":
+			sawSame = true
+			eq, w := CondEquivalent(cs.cond, cNot(wantAlpha))
+			c.Check(R, "pdf417.encodeText/returns-tracked-iff", rets[0].Pos(), eq, "the tracked sub-mode in every other case: "+cNot(wantAlpha).String(), cs.cond.String()+" "+w)
+		default:
+			c.Check(R, "pdf417.encodeText/returns-other", rets[0].Pos(), false, "alpha or the tracked sub-mode", cs.val.String()+" when "+cs.cond.String())
+		}
+	}
+	if !sawAlpha {
+		c.Check(R, "pdf417.encodeText/returns-alpha-iff", rets[0].Pos(), false, "alpha when the pad 29 was added in punctuation sub-mode (there it is the latch to alpha)", "the tracked sub-mode is returned unchanged: a reader is in alpha after the pad while the encoder continues in punctuation")
+	}
+	if !sawSame {
+		c.Check(R, "pdf417.encodeText/returns-tracked-iff", rets[0].Pos(), false, "the tracked sub-mode when no latch was padded", "never returned")
+	}
+}
+
+var regexpOddLen = regexp.MustCompile(`^!\[Mod\(len\([^)]*\),2\) == 0\]$`)
+
+func init() {
+	register("C04", rulePDF417Pad)
+}
+
+func clearOpaque(c *Cond) {
+	if c.Kind == CBool {
+		c.Opaque = false
+	}
+	for _, s := range c.Sub {
+		clearOpaque(s)
+	}
+}
+
+// A10: the mode message stores (number of data words - 1); zero data words cannot be expressed.
+func ruleAztecModeCount(c *Ctx) {
+	const R = "A10-AZTEC-WORDCOUNT"
+	c.Doc(R, "aztec.EncodeWithColor: generateModeMessage is reached only with a data word count >= 1 (the mode message field holds count-1; with count 0 it would announce 64 or 2048 words): the reach condition of the call from the definition of the count, together with the count's structural lower bound, implies count >= 1")
+	c.Floor(R, 1)
+	fn := c.theFunc(R, "aztec.EncodeWithColor")
+	gm := c.P.Func("aztec.generateModeMessage")
+	if fn == nil || gm == nil {
+		return
+	}
+	sites := c.P.deepCallsTo(fn, gm)
+	if len(sites) == 0 {
+		c.Check(R, "aztec.EncodeWithColor/mode-message", fn.Pos(), false, "a generateModeMessage call", "none")
+	}
+	for i, s := range sites {
+		call := s.Ins.(*ssa.Call)
+		w := call.Common().Args[2]
+		n := NewNormer(c.P)
+		n.Root = fn
+		n.Bind[w] = "W"
+		from := s.Fn.Blocks[0]
+		if ins, ok := w.(ssa.Instruction); ok && ins.Block() != nil {
+			from = ins.Block()
+		}
+		n.Ctx = s.Path
+		rc := n.ReachCond(s.Fn, from, call.Block())
+		l := newLbCtx(c.P)
+		if lb := l.lb(w); lb != lbUnknown {
+			rc = cAnd(rc, MustRefCond(fmt.Sprintf("W >= %d", lb)))
+		}
+		imp, _, wit := CondRelation(rc, MustRefCond("W >= 1"))
+		found := rc.String()
+		if !imp {
+			found += "; reachable with " + wit
+		}
+		c.Check(R, fmt.Sprintf("aztec.EncodeWithColor/mode-message#%d/count-positive", i+1), call.Pos(), imp, "data word count >= 1 where the mode message is generated", found)
+	}
+}
+
+func init() {
+	register("C03", ruleAztecModeCount)
+	register("C10", ruleAztecModeCount)
 }
